@@ -126,6 +126,11 @@ func (t *c01Transport) isClosed() bool {
 	defer t.mu.Unlock()
 	return t.closed
 }
+func (t *c01Transport) count() int {
+	t.mu.Lock()
+	defer t.mu.Unlock()
+	return len(t.frames)
+}
 func (t *c01Transport) snapshot() ([][]byte, []uint32) {
 	t.mu.Lock()
 	defer t.mu.Unlock()
@@ -159,7 +164,20 @@ type c01Script struct {
 	// publications reach the hub through channelMedium.broadcastPublication, and the "mark" op makes
 	// the medium detect a position loss (Node.checkPosition with a lost position, as another
 	// subscriber's periodic check would) and broadcast its insufficient-state marker
-	Medium     bool      `json:"medium,omitempty"`
+	Medium bool `json:"medium,omitempty"`
+	// the subscription carries no tags filter (every publication of the script is then an
+	// unfiltered one): a marker publication has no tags, so a tags filter would hide whatever a
+	// subscriber does with it
+	NoFilter bool `json:"no_filter,omitempty"`
+	// C38 only, with Medium: the medium runs with its queue, its real writer goroutine and this
+	// BroadcastDelay (real time).  Publications are then forwarded asynchronously: the driver hands
+	// one to the node and waits until the medium has forwarded it before its next step (so no
+	// coalescing happens); only used after the subscribe finished
+	MediumDelayMs int `json:"medium_delay_ms,omitempty"`
+	// C38 only: another connection subscribes to the channel and unsubscribes again right before
+	// the script's subscription starts, so the channel's delayed dissolve job (about 1s) is pending
+	// while the script runs
+	Resub      bool      `json:"resub,omitempty"`
 	SinceDelta int       `json:"since_delta"` // since = max(0, top+delta) at request time
 	SinceEp    int       `json:"since_ep"`    // 0 "", 1 current epoch, 2 stale/bogus
 	Phase      [][]c01Op `json:"phase"`       // 0 before reserve, 1 after reserve (client), 2 after hub add, 3 after history read, 4 server: after merge, 5 server: after commit, 6 after subscribe, 7 after unsubscribe, 8 after close
@@ -199,7 +217,8 @@ type c01World struct {
 	deliv    []string    // Coq frames of the messages handed to the node, in delivery order
 	delivK   []string    // the same as comparable keys (pub:<id> | join | leave)
 	batchOff int32
-	cwEnd    int // items left in the channel's batching writer when the schedule ended
+	lastLive string // Coq term: option frame (C38's end-to-end cases)
+	cwEnd    int    // items left in the channel's batching writer when the schedule ended
 }
 
 func (w *c01World) fail(format string, a ...any) {
@@ -220,7 +239,14 @@ func c01NewWorld(t *testing.T, sc *c01Script) *c01World {
 	var mediumFn func(string) ChannelMediumOptions
 	checkDelay := time.Duration(0)
 	if sc.Medium {
-		mediumFn = func(string) ChannelMediumOptions { return ChannelMediumOptions{SharedPositionSync: true} }
+		mediumFn = func(string) ChannelMediumOptions {
+			o := ChannelMediumOptions{SharedPositionSync: true}
+			if sc.MediumDelayMs > 0 {
+				o.enableQueue = true
+				o.broadcastDelay = time.Duration(sc.MediumDelayMs) * time.Millisecond
+			}
+			return o
+		}
 		checkDelay = time.Nanosecond // the shared check's rate limit never suppresses a check
 	}
 	n, err := New(Config{
@@ -251,7 +277,7 @@ func c01NewWorld(t *testing.T, sc *c01Script) *c01World {
 		n.OnConnecting(func(ctx context.Context, e ConnectEvent) (ConnectReply, error) {
 			return ConnectReply{Subscriptions: map[string]SubscribeOptions{c01Ch: {
 				EnablePositioning: sc.Pos, EnableRecovery: sc.Pos, PushJoinLeave: sc.JL,
-				ServerTagsFilter: &protocol.FilterNode{Cmp: "eq", Key: "k", Val: "a"},
+				ServerTagsFilter: c01Filter(sc),
 			}}}, nil
 		})
 	}
@@ -360,7 +386,15 @@ func (w *c01World) topOffset() uint64 {
 
 // ---- environment operations ----
 
+func c01Filter(sc *c01Script) *protocol.FilterNode {
+	if sc.NoFilter {
+		return nil
+	}
+	return &protocol.FilterNode{Cmp: "eq", Key: "k", Val: "a"}
+}
+
 func (w *c01World) opPublish(f bool, size int) {
+	f = f && !w.sc.NoFilter
 	w.nextID++
 	id := w.nextID
 	data, _ := json.Marshal(map[string]int{"i": id})
@@ -378,6 +412,7 @@ func (w *c01World) opPublish(f bool, size int) {
 }
 
 func (w *c01World) opPublishNoHist(f bool) {
+	f = f && !w.sc.NoFilter
 	w.nextID++
 	id := w.nextID
 	data, _ := json.Marshal(map[string]int{"i": id})
@@ -521,8 +556,62 @@ func (w *c01World) opDeliver(i int, lag bool) {
 		w.fail("delivery did not complete")
 		return
 	}
+	if tk.kind == 0 {
+		w.waitMediumForward()
+		if w.curPh >= 6 && w.sc.MediumDelayMs > 0 {
+			p := w.byID[tk.id]
+			w.lastLive = "(Some " + vApp("FPub", c01CoqPub(c01Pub{Off: p.Off, Ep: p.Ep})) + ")"
+		}
+	}
 	w.emit("HTail")
 	w.settleInsufficient()
+}
+
+func (w *c01World) medium() *channelMedium {
+	mu := w.node.mediumLock(c01Ch)
+	mu.Lock()
+	defer mu.Unlock()
+	return w.node.mediumShard(c01Ch)[c01Ch]
+}
+
+// queue mode: the publication just handed to the node sits in the medium's queue until the
+// writer goroutine forwards it (after BroadcastDelay); wait for that, then give the forwarded
+// broadcast the time to run through the hub
+func (w *c01World) waitMediumForward() {
+	if w.sc.MediumDelayMs <= 0 {
+		return
+	}
+	m := w.medium()
+	if m == nil || m.messages == nil {
+		return // the channel runs without a medium: nothing is queued
+	}
+	before := w.tr.count()
+	deadline := time.Now().Add(time.Duration(w.sc.MediumDelayMs)*time.Millisecond + 1500*time.Millisecond)
+	for m.messages.Len() > 0 && time.Now().Before(deadline) {
+		time.Sleep(500 * time.Microsecond)
+	}
+	if m.messages.Len() > 0 {
+		return // never forwarded (the observed log will tell)
+	}
+	settle := time.Now().Add(40 * time.Millisecond)
+	for w.tr.count() == before && time.Now().Before(settle) {
+		time.Sleep(200 * time.Microsecond)
+	}
+}
+
+// another connection's subscription comes and goes: the channel is left with a pending dissolve job
+func (w *c01World) priorSubscriber() {
+	ctx, cancel := context.WithCancel(context.Background())
+	x := newTestClientCustomTransport(w.t, ctx, w.node, newTestTransport(cancel), "u2")
+	connectClientV2(w.t, x)
+	if !w.sc.Connect { // (a connect-time subscription came with the connect)
+		if err := x.Subscribe(c01Ch); err != nil {
+			w.fail("prior subscriber: %v", err)
+			return
+		}
+	}
+	x.Unsubscribe(c01Ch)
+	w.waitFor("prior subscriber gone", func() bool { return w.node.hub.NumSubscribers(c01Ch) == 0 })
 }
 
 // A delivery parked between CheckPosition (c.mu released) and Enqueue: the positioned path
@@ -553,6 +642,21 @@ func (w *c01World) opDeliverSplit(i int, unsub int) {
 	case g := <-w.arrive:
 		if g != "dpf" {
 			w.fail("unexpected gate %s", g)
+		}
+		if atomic.LoadInt32(&w.insuff) > w.insuffH {
+			// the delivery took an insufficient-state branch (logged before it spawns the
+			// goroutine): it never reaches the enqueue stage itself, the armed gate caught the
+			// spawned unsubscribe / disconnect instead
+			w.release <- struct{}{}
+			select {
+			case <-done:
+			case <-time.After(5 * time.Second):
+				w.fail("delivery did not complete")
+				return
+			}
+			w.emit("HTail")
+			w.settleInsufficient()
+			return
 		}
 	case <-time.After(5 * time.Second):
 		w.fail("split delivery stuck")
@@ -743,7 +847,7 @@ func (w *c01World) subscribe() {
 	sc := w.sc
 	w.resolveSince()
 	done := make(chan struct{})
-	tf := &protocol.FilterNode{Cmp: "eq", Key: "k", Val: "a"}
+	tf := c01Filter(sc)
 	w.br.hook = w.gate
 	if sc.Connect {
 		req := &protocol.ConnectRequest{Subs: map[string]*protocol.SubscribeRequest{c01Ch: {
@@ -859,6 +963,9 @@ func (w *c01World) subscribe() {
 }
 
 func (w *c01World) run() {
+	if w.sc.Resub {
+		w.priorSubscriber()
+	}
 	w.phase(0)
 	w.subscribe()
 	w.phase(6)
@@ -1220,6 +1327,7 @@ func c01AddMedium(r *rand.Rand, sc *c01Script) {
 		return
 	}
 	sc.Medium = true
+	sc.NoFilter = r.Intn(2) == 0
 	if r.Intn(2) == 0 {
 		ph := 6
 		if sc.Unsub != 0 && r.Intn(3) == 0 {
@@ -1312,7 +1420,7 @@ func c01Corpus() []*c01Script {
 		// 30: same, server-side subscription (disconnect), recovery on
 		{Medium: true, Server: true, Pos: true, Rec: true, SinceDelta: 0, SinceEp: 1, Phase: c01Phases(map[int][]c01Op{0: c01Ops(P(false), D(0)), 6: c01Ops(P(false), D(0), c01Op{K: "mark"}, P(false), D(0))})},
 		// 31: the marker is invisible to a non-positioned subscription
-		{Medium: true, Phase: c01Phases(map[int][]c01Op{6: c01Ops(P(false), D(0), c01Op{K: "mark"}, P(false), D(0))})},
+		{Medium: true, NoFilter: true, Phase: c01Phases(map[int][]c01Op{6: c01Ops(P(false), D(0), c01Op{K: "mark"}, P(false), D(0))})},
 	}
 }
 
